@@ -250,6 +250,13 @@ def admission(ck):
             k = q.dotted(sub.slice) if isinstance(sub, ast.Subscript) else None
             parts = [c for c in q.calls(afi.node) if q.call_attr(c) == "partial" and c.args and q.dotted(c.args[0]) == "self." + rel.name]
             ok = bool(k) and bool(parts) and all(len(c.args) == 2 and q.dotted(c.args[1]) == k for c in parts)
+            # the same closure written as a lambda / local function
+            lams = [x for x in ast.walk(afi.node) if isinstance(x, ast.Lambda) and q.is_call(x.body, "self." + rel.name)]
+            if not parts and lams:
+                ok = bool(k) and all(len(x.body.args) == 1 and q.dotted(x.body.args[0]) == k for x in lams)
+                parts = lams
+            if not parts:
+                raise AnalysisError("cannot see how %s is bound to the admitted key in %s" % (rel.name, afi.qualname))
             ck.ob("C09.release", afi, n.ast, ok, "the release callback is bound to the admitted key")
             # and it is what _handle_request receives
             names = set()
@@ -257,7 +264,7 @@ def admission(ck):
                 if isinstance(st, ast.Assign) and st.value in parts:
                     names |= {p for p in q.assigned_paths(st)}
             hr = q.find_calls(afi.node, "self._handle_request")
-            ck.ob("C09.release", afi, n.ast, bool(hr) and all(any(q.dotted(a) in names or a in parts for a in c.args) for c in hr), "the bound release callback is passed to _handle_request")
+            ck.ob("C09.release", afi, n.ast, bool(hr) and all(any(q.dotted(a) in names or a in parts for a in list(c.args) + [k_.value for k_ in c.keywords]) for c in hr), "the bound release callback is passed to _handle_request")
 
     # -- queue timeout: a timed-out request can never be admitted later
     tkey = _first_param(ont)
@@ -323,44 +330,9 @@ def _not_followed(fi, start, end) -> Set[int]:
 
 
 def take_and_clear(ck, rule: str, rel: str, cls: str, attr: str) -> Dict[str, list]:
-    """Every load of self.<attr> in the class is a None test or a *take*
-    (``x = self.attr``); every use of a taken alias happens after
-    ``self.attr = None`` on every path.  Returns {qualname: [take nodes]}."""
-    path = "self." + attr
-    takes: Dict[str, list] = {}
-    for fi in ck.repo.direct_methods(rel, cls):
-        pm = q.parent_map(fi.node)
-        aliases: Set[str] = set()
-        for n in ast.walk(fi.node):
-            if not (isinstance(n, ast.Attribute) and isinstance(n.ctx, ast.Load) and q.dotted(n) == path):
-                continue
-            p = pm.get(n)
-            if isinstance(p, ast.Compare) and len(p.ops) == 1 and isinstance(p.ops[0], (ast.Is, ast.IsNot)) and any(isinstance(c, ast.Constant) and c.value is None for c in [p.left] + p.comparators):
-                continue
-            if isinstance(p, ast.Assign) and p.value is n and len(p.targets) == 1 and isinstance(p.targets[0], ast.Name):
-                aliases.add(p.targets[0].id)
-                takes.setdefault(fi.qualname, []).append(p)
-                continue
-            ck.ob(rule, fi, q.enclosing_stmt(pm, n), False, "%s is called / passed on directly instead of through take-and-clear" % path)
-        if not aliases:
-            continue
-        cleared = event_facts(
-            fi,
-            {"cleared": node_assigns(path, is_none)},
-            {"cleared": lambda n: n.kind == "stmt" and isinstance(n.ast, (ast.Assign, ast.AnnAssign)) and path in q.assigned_paths(n.ast) and not is_none(n.ast.value)},
-            cond_facts=False,
-        )
-        for n in ast.walk(fi.node):
-            if isinstance(n, ast.Name) and isinstance(n.ctx, ast.Load) and n.id in aliases:
-                st = q.enclosing_stmt(pm, n)
-                nodes = fi.cfg.nodes_for(st) or [m for m in fi.cfg.stmt_nodes() if m.ast is st]
-                if not nodes:
-                    # inside a compound statement header (test): find by containment
-                    nodes = [m for m in fi.cfg.stmt_nodes() if m.ast is not None and any(x is n for x in ast.walk(m.ast))]
-                ck.need(nodes, "use of %s in %s not found on the CFG" % (n.id, fi.qualname))
-                ok = all(("@cleared", True) in cleared[m.id] for m in nodes)
-                ck.ob(rule, fi, st, ok, "the taken %s is used only after %s = None (no second invocation possible)" % (attr, path))
-    return takes
+    from ..x_iostream import take_and_clear as _tac
+
+    return _tac(ck, rule, ck.repo.direct_methods(rel, cls), attr)
 
 
 def completion(ck):
@@ -512,9 +484,12 @@ def completion(ck):
 
 def _new_request_name(fin) -> Tuple[str, ast.Call]:
     cs = [c for c in q.calls(fin.node) if q.call_attr(c) == "fetch" and (q.receiver(c) or "").endswith("client")]
-    if len(cs) != 1 or not cs[0].args or not isinstance(cs[0].args[0], ast.Name):
+    a0 = None
+    if len(cs) == 1:
+        a0 = cs[0].args[0] if cs[0].args else q.kwarg(cs[0], "request")
+    if len(cs) != 1 or not isinstance(a0, ast.Name):
         raise AnalysisError("cannot identify the redirected fetch in %s" % fin.qualname)
-    return cs[0].args[0].id, cs[0]
+    return a0.id, cs[0]
 
 
 def _enclosing_if(pm, node, fn) -> Optional[ast.If]:
@@ -526,6 +501,134 @@ def _enclosing_if(pm, node, fn) -> Optional[ast.If]:
             return a
         child = a
     return None
+
+
+def _branch_of(pm, node, fn):
+    """(innermost If, statements of the branch holding ``node``, condition of reaching it): the condition is the
+    conjunction of the tests of all enclosing ifs with the polarity of the branch taken (else branch = negation)."""
+    chain: List[ast.AST] = []
+    inner = None
+    child = node
+    for a in q.ancestors(pm, node):
+        if a is fn:
+            break
+        if isinstance(a, ast.If):
+            if any(child is s_ for s_ in a.body):
+                chain.append(a.test)
+                inner = inner or (a, a.body)
+            elif any(child is s_ for s_ in a.orelse):
+                chain.append(ast.UnaryOp(op=ast.Not(), operand=a.test))
+                inner = inner or (a, a.orelse)
+        child = a
+    if inner is None:
+        return None, None, None
+    chain.reverse()
+    cond = chain[0] if len(chain) == 1 else ast.BoolOp(op=ast.And(), values=chain)
+    return inner[0], inner[1], ast.fix_missing_locations(cond)
+
+
+def fold3(e: ast.AST, env, relevant=(), flags=None) -> Optional[bool]:
+    """three-valued folding: True / False / None (some operand cannot be evaluated).  An atom that cannot be
+    evaluated although it mentions one of the ``relevant`` paths means the condition is not understood."""
+    if isinstance(e, ast.BoolOp):
+        vals = [fold3(v, env, relevant, flags) for v in e.values]
+        if isinstance(e.op, ast.And):
+            return False if any(v is False for v in vals) else (True if all(v is True for v in vals) else None)
+        return True if any(v is True for v in vals) else (False if all(v is False for v in vals) else None)
+    if isinstance(e, ast.UnaryOp) and isinstance(e.op, ast.Not):
+        v = fold3(e.operand, env, relevant, flags)
+        return None if v is None else (not v)
+    if isinstance(e, ast.Name) and e.id.startswith("__flag") and flags is not None and e.id in flags.flags:
+        v = flags.value(e.id, env, relevant)
+        if v is None:
+            raise AnalysisError("cannot determine the value of flag %s for %s" % (flags.flags[e.id][0], sorted(env.items(), key=repr)[:3]))
+        return v
+    try:
+        return bool(q.fold(e, env))
+    except q.NotFoldable as ex:
+        if any(r in q.paths_in(e) for r in relevant):
+            raise AnalysisError("cannot evaluate %s (%s)" % (q.unparse(e)[:100], ex))
+        return None
+
+
+class FlagEval:
+    """Boolean *flag locals* (``flag = False`` ... ``if a: flag = True`` ... ``if flag:``): the value a flag has at
+    the test that reads it is computed per concrete environment by exploring the function's CFG with every branch
+    whose condition folds under that environment decided (no code is run)."""
+
+    def __init__(self, repo, fi):
+        self.repo = repo
+        self.fi = fi
+        self.flags: Dict[str, Tuple[str, object]] = {}
+        self._tests: Dict[int, ast.AST] = {}
+
+    def flag_locals(self) -> Set[str]:
+        out = set()
+        for name in q.local_names(self.fi.node):
+            sts = q.stores_to(self.fi.node, name)
+            if len(sts) >= 2 and all(isinstance(s_, (ast.Assign, ast.AnnAssign)) and isinstance(getattr(s_, "value", None), ast.Constant) and isinstance(s_.value.value, bool) for s_ in sts):
+                out.add(name)
+        return out
+
+    def mark(self, cond: ast.AST) -> ast.AST:
+        """copy of ``cond`` in which reads of flag locals are replaced by marker names"""
+        import copy
+
+        fl = self.flag_locals()
+        me = self
+
+        class T(ast.NodeTransformer):
+            def visit_Name(self, node):
+                if node.id in fl and isinstance(node.ctx, ast.Load):
+                    tn = [n for n in me.fi.cfg.stmt_nodes(lambda n: n.kind == "test" and n.ast is node)]
+                    if tn:
+                        key = "__flag%d" % len(me.flags)
+                        me.flags[key] = (node.id, tn[0])
+                        return ast.copy_location(ast.Name(id=key, ctx=ast.Load()), node)
+                return node
+
+        # transform without deep-copying first (identity of the Name nodes matters), on a shallow rebuilt tree
+        def rebuild(e):
+            if isinstance(e, ast.BoolOp):
+                return ast.BoolOp(op=e.op, values=[rebuild(v) for v in e.values])
+            if isinstance(e, ast.UnaryOp) and isinstance(e.op, ast.Not):
+                return ast.UnaryOp(op=e.op, operand=rebuild(e.operand))
+            if isinstance(e, ast.Name):
+                return T().visit_Name(e)
+            return e
+
+        return ast.fix_missing_locations(rebuild(cond))
+
+    def value(self, key: str, env, relevant) -> Optional[bool]:
+        name, tnode = self.flags[key]
+        cfg = self.fi.cfg
+        stores = {n.id: n.ast.value.value for n in cfg.stmt_nodes(lambda n: n.kind == "stmt" and isinstance(n.ast, (ast.Assign, ast.AnnAssign)) and q.assigned_paths(n.ast) == {name})}
+
+        def tr(n, val):
+            return stores[n.id] if n.id in stores else val
+
+        def edge(n, kind, val):
+            if n.kind == "test" and kind in ("true", "false"):
+                if n.id not in self._tests:
+                    self._tests[n.id] = expand_expr(self.repo, self.fi, n.ast, locals_too=False)
+                try:
+                    g = bool(q.fold(self._tests[n.id], env))
+                except q.NotFoldable:
+                    return val
+                if g != (kind == "true"):
+                    return "dead"
+            return val
+
+        def tr2(n, val):
+            return None if val == "dead" else tr(n, val)
+
+        seen = explore(cfg, "unset", tr2, lambda t: False, edge_transfer=edge, follow_exc=False)
+        vals = {v for _f, v in seen.get(tnode.id, ()) if v != "dead"}
+        if vals == {True}:
+            return True
+        if vals == {False}:
+            return False
+        return None
 
 
 def _resolve_test(fn, e: ast.AST) -> ast.AST:
@@ -601,6 +704,21 @@ def header_deletions(stmts, hdrs_path: str, bound: Optional[Dict[str, List[str]]
             vals = _const_list(st.iter)
             if vals is None and isinstance(st.iter, ast.Name) and st.iter.id in bound:
                 vals = bound[st.iter.id]
+            if vals is None and mod is not None:
+                # a module / class level constant or a local bound once to a literal
+                it_ = st.iter
+                cand = None
+                if isinstance(it_, ast.Name) and it_.id in mod.assigns:
+                    cand = mod.assigns[it_.id]
+                elif isinstance(it_, ast.Attribute) and isinstance(it_.value, ast.Name) and it_.value.id in ("self", "cls") and clsname in mod.classes:
+                    for cs_ in mod.classes[clsname].body:
+                        if isinstance(cs_, ast.Assign) and any(isinstance(t_, ast.Name) and t_.id == it_.attr for t_ in cs_.targets):
+                            cand = cs_.value
+                if isinstance(cand, ast.Call) and q.dotted(cand.func) in ("frozenset", "set", "tuple", "list") and len(cand.args) == 1:
+                    cand = cand.args[0]
+                vals = _const_list(cand) if cand is not None else None
+            if vals is None and any(q.dotted(x) == hdrs_path for s_ in st.body for x in ast.walk(s_)):
+                raise AnalysisError("header names iterated in %s cannot be resolved to literals" % q.unparse(st.iter)[:60])
             if vals is not None and not any(isinstance(x, (ast.Break, ast.Return)) for s in st.body for x in ast.walk(s)):
                 b2 = dict(bound)
                 b2[st.target.id] = vals
@@ -744,14 +862,15 @@ def redirects(ck):
             reads = [x for x in ast.walk(cb.body) if isinstance(x, ast.Call) and q.call_attr(x) == "result" and q.receiver(x) == prm]
             ck.ob("C09.redirect-completes", fin, c, not (reads and may_fail),
                   "the callback on the redirected fetch's future hands the outcome to the original final callback in every case; reading f.result() unprotected raises when the redirected hop failed with a non-HTTP error (connection refused, timeout) and the original fetch then never completes",
-                  construct="redirected fetch: done-callback (lambda) reads result() unprotected")
+                  construct="redirected fetch: done-callback reads result() unprotected")
         elif isinstance(cb, ast.Name) and ck.repo.has_func(SH, fin.qualname + ".<locals>." + cb.id):
             cfi = ck.func(SH, fin.qualname + ".<locals>." + cb.id)
             prm = [p_ for p_ in cfi.params()][0] if cfi.params() else None
             cpm = q.parent_map(cfi.node)
             reads = [x for x in q.walk_body(cfi.node) if isinstance(x, ast.Call) and q.call_attr(x) == "result" and q.receiver(x) == prm]
             ok = all(q.protected_by(cpm, x, "Exception") is not None for x in reads) or not may_fail
-            ck.ob("C09.redirect-completes", fin, c, ok, "the callback on the redirected fetch's future reads its outcome under a handler for Exception (a failed hop still completes the original fetch)")
+            ck.ob("C09.redirect-completes", fin, c, ok, "the callback on the redirected fetch's future reads its outcome under a handler for Exception (a failed hop still completes the original fetch); reading f.result() unprotected raises when the hop failed with a non-HTTP error and the original fetch then never completes",
+                  construct="redirected fetch: done-callback reads result() unprotected")
         else:
             raise AnalysisError("callback registered on the redirected fetch is neither a lambda nor a local function")
 
@@ -775,26 +894,29 @@ def redirects(ck):
     # -- method rewrite
     rew = [st for st in q.stores_to(fn, nr + ".method") if isinstance(st, ast.Assign) and isinstance(st.value, ast.Constant) and st.value.value == "GET"]
     ck.floor("C09.redirect-method-rewrite", len(rew), 1, "assignments %s.method = 'GET'" % nr)
+    sites = []
+    flagev = FlagEval(ck.repo, fin)
     for st in rew:
-        iff = _enclosing_if(pm, st, fn)
+        iff, rew_body, cond = _branch_of(pm, st, fn)
         ck.need(iff is not None, "method rewrite is not under a condition")
-        test = expand_expr(ck.repo, fin, iff.test)
-        ok = True
-        detail = []
-        for c in sorted(REDIRECT_CODES):
-            for m in METHODS:
-                try:
-                    got = bool(q.fold(test, {"self.code": c, "self.request.method": m}))
-                except q.NotFoldable as e:
-                    raise AnalysisError("cannot evaluate the method-rewrite condition: %s" % e)
-                want = (c == 303 and m != "HEAD") or (c in (301, 302) and m == "POST")
-                if got != want:
-                    ok = False
-                    detail.append("%d/%s" % (c, m))
-        ck.ob("C09.redirect-method-rewrite", fin, iff.test, ok, "method becomes GET exactly for (303 and not HEAD) or (301/302 and POST)%s" % ((" - differs for " + ",".join(detail[:6])) if detail else ""))
-        body_none = [s for s in iff.body if isinstance(s, ast.Assign) and nr + ".body" in q.assigned_paths(s) and is_none(s.value)]
+        test = expand_expr(ck.repo, fin, flagev.mark(cond))
+        if not any(x_ in q.paths_in(test) for x_ in ("self.code", "self.request.method")) and not any(isinstance(x_, ast.Name) and x_.id in flagev.flags for x_ in ast.walk(test)):
+            raise AnalysisError("the condition of the method rewrite does not mention the status code / method: %s" % q.unparse(test)[:120])
+        sites.append((st, iff, rew_body, test))
+    # the rewrite sites together: GET exactly for (303 and not HEAD) or (301/302 and POST)
+    detail = []
+    for c in sorted(REDIRECT_CODES):
+        for m in METHODS:
+            # enclosing guards that do not talk about the status/method (the follow decision) are assumed to hold
+            got = any(fold3(test, {"self.code": c, "self.request.method": m}, relevant=("self.code", "self.request.method"), flags=flagev) is not False for _st, _iff, _b, test in sites)
+            want = (c == 303 and m != "HEAD") or (c in (301, 302) and m == "POST")
+            if got != want:
+                detail.append("%d/%s" % (c, m))
+    ck.ob("C09.redirect-method-rewrite", fin, sites[0][1].test, not detail, "method becomes GET exactly for (303 and not HEAD) or (301/302 and POST)%s" % ((" - differs for " + ",".join(detail[:6])) if detail else ""))
+    for st, iff, rew_body, test in sites:
+        body_none = [s_ for s_ in rew_body if isinstance(s_, ast.Assign) and nr + ".body" in q.assigned_paths(s_) and is_none(s_.value)]
         ck.ob("C09.redirect-method-rewrite", fin, st, len(body_none) >= 1, "the rewritten request has body None")
-        dl = {nm for nm, _n, _s in header_deletions(iff.body, hdrs, None, fin.module, CONN)}
+        dl = {nm for nm, _n, _s in header_deletions(rew_body, hdrs, None, fin.module, CONN)}
         ck.ob("C09.redirect-method-rewrite", fin, st, CONTENT_HEADERS <= dl, "Content-Length/-Type/-Encoding and Transfer-Encoding are removed with the body (removed: %s)" % sorted(dl))
         # the rewrite happens before the fetch
         ids = {n.id for n in fin.cfg.nodes_for(st)}
@@ -803,9 +925,9 @@ def redirects(ck):
     # -- cross-origin predicate
     strip_marks = [st for st in q.stores_to(fn, nr + ".auth_username") if is_none(getattr(st, "value", None))]
     ck.floor("C09.cross-origin-test", len(strip_marks), 1, "%s.auth_username = None" % nr)
-    strip_if = _enclosing_if(pm, strip_marks[0], fn)
+    strip_if, strip_body, strip_cond = _branch_of(pm, strip_marks[0], fn)
     ck.need(strip_if is not None, "credential stripping is not under a cross-origin condition")
-    test = expand_expr(ck.repo, fin, strip_if.test)
+    test = expand_expr(ck.repo, fin, strip_cond)
     bases: Dict[str, str] = {}
     for x in ast.walk(test):
         if isinstance(x, ast.Attribute) and isinstance(x.value, ast.Name) and x.attr in ("scheme", "netloc", "hostname", "port", "username", "password"):
@@ -833,6 +955,7 @@ def redirects(ck):
     ck.ob("C09.cross-origin-test", fin, strip_if.test, len(new_b) == 1 and len(old_b) == 1, "the cross-origin test compares the redirect target URL with the request's URL (parsed: %s)" % role)
     if len(new_b) == 1 and len(old_b) == 1:
         missed = []
+        n_eval = 0
         for o in _url_domain():
             for n_ in _url_domain():
                 env = {}
@@ -841,10 +964,9 @@ def redirects(ck):
                     env[b + ".hostname"] = h
                     env[b + ".port"] = p
                     env[b + ".netloc"] = h if p is None else "%s:%s" % (h, p)
-                try:
-                    got = bool(q.fold(test, env))
-                except q.NotFoldable as e:
-                    raise AnalysisError("cannot evaluate the cross-origin condition: %s" % e)
+                g3 = fold3(test, env, relevant=tuple(env))
+                n_eval += g3 is not None
+                got = g3 is not False
                 if o != n_ and not got:
                     missed.append("%s://%s -> %s://%s" % (o[0], env[old_b[0] + ".netloc"], n_[0], env[new_b[0] + ".netloc"]))
         ck.ob("C09.cross-origin-test", fin, strip_if.test, not missed, "the test is true whenever scheme, host or port differ (64 URL pairs folded)%s" % ((" - not for " + "; ".join(missed[:3])) if missed else ""))
@@ -859,7 +981,7 @@ def redirects(ck):
         ck.ob("C09.cross-origin-test", fin, strip_if.test, ok_orig, "the reference URL is that of the original request (or of the current hop)")
 
     # -- what happens on the cross-origin branch
-    body = strip_if.body
+    body = strip_body
     for s_ in body:
         for c in q.calls(s_):
             if any(q.dotted(a) == nr for a in list(c.args) + [k.value for k in c.keywords]) and q.dotted(c.func) not in ("copy.copy",):
@@ -1208,7 +1330,6 @@ def _capacity_helper_off_by_one(root):
 
 
 MUTANTS = [
-    ("redirected fetch's result read in a local function without a handler", _in(SH, CONN + ".finish", replace_stmt(lambda st: isinstance(st, ast.Expr) and "add_done_callback" in _src(st), lambda st: ast.parse("def _done(f):\n    final_callback(f.result())\nfut.add_done_callback(_done)").body)), "C09.redirect-completes"),
     ("seeded C09-adv1: cross-origin decision via _origin() helper without the scheme", _in(SH, CONN, _origin_helper_without_scheme), "C09.cross-origin-test"),
     ("method rewrite via helper that forgets the HEAD exemption", _in(SH, CONN, _rewrite_through_helper_dropping_head), "C09.redirect-method-rewrite"),
     ("capacity test via helper with <=", _in(SH, CLIENT, _capacity_helper_off_by_one), "C09.admit-guard"),
